@@ -11,23 +11,10 @@ RC = "nexrad_decode::messages::definitions::RedundantChannel"
 UOM_BYTE = "uom::si::information::byte"
 
 
-def run(chk, tier):
-    prog, info = common.program("all")
-    common.note_extraction(chk, info, prog)
-    common.vacuity(chk, ['R-TABLE', 'VN-bits', 'R-PANIC'])
-    chk.explanation = ("R-LAYOUT on MessageHeader (ICD table II rows, repr(C) size 28 = wire size); value numbering of every accessor "
-                       "into a canonical piecewise term over the header fields, compared with the specified closed form (type table, "
-                       "channel codes, segmented <=> size != 0xFFFF, size rule, agreement of the plain and unit-typed size accessors); "
-                       "no reachable panic in the accessors the property names.")
-    chk.trust("serde_derive emits fields in declaration order; bincode 1.3 fixint/big-endian encodes each primitive at its width without padding")
-    chk.trust("uom Quantity::new::<byte> is a tagged multiplication by the unit's constant factor (modelled as an opaque tag over its argument)")
-    layout.check_struct(chk, prog, MH)
-    layout.check_option_chain(chk, prog, "nexrad_decode::util::deserialize")
-
-    ev = sym.Evaluator(prog)
-    size, count, number, mtype, chan = F("segment_size"), F("segment_count"), F("segment_number"), F("message_type"), F("redundant_channel")
-    seg = mk_in(size, "u16", ((0, 65534),))          # segmented <=> size != 0xFFFF
-
+def type_table(chk, prog, ev):
+    """MessageHeader::message_type against the frozen ICD table, and the enum's discriminants (carried by C14: its groups are
+    keyed by this accessor's value)."""
+    mtype = F("message_type")
     # ---- message_type: frozen ICD table + derived oracle (literal == repr(u8) discriminant)
     got, fn = eval_or_blind(chk, ev, "VN", MH + "::message_type")
     if got is not None:
@@ -47,6 +34,26 @@ def run(chk, tier):
             extra = set(discr) - set(codes.MESSAGE_TYPE.values())
             chk.ob("R-TABLE", MT, not extra, "unit variants without a wire code in the table: %s" % sorted(extra), key="extra-variants")
             chk.floor("message-type codes", n, 29)
+
+
+def run(chk, tier):
+    prog, info = common.program("all")
+    common.note_extraction(chk, info, prog)
+    common.vacuity(chk, ['R-TABLE', 'VN-bits', 'R-PANIC'])
+    chk.explanation = ("R-LAYOUT on MessageHeader (ICD table II rows, repr(C) size 28 = wire size); value numbering of every accessor "
+                       "into a canonical piecewise term over the header fields, compared with the specified closed form (type table, "
+                       "channel codes, segmented <=> size != 0xFFFF, size rule, agreement of the plain and unit-typed size accessors); "
+                       "no reachable panic in the accessors the property names.")
+    chk.trust("serde_derive emits fields in declaration order; bincode 1.3 fixint/big-endian encodes each primitive at its width without padding")
+    chk.trust("uom Quantity::new::<byte> is a tagged multiplication by the unit's constant factor (modelled as an opaque tag over its argument)")
+    layout.check_struct(chk, prog, MH)
+    layout.check_option_chain(chk, prog, "nexrad_decode::util::deserialize")
+
+    ev = sym.Evaluator(prog)
+    size, count, number, mtype, chan = F("segment_size"), F("segment_count"), F("segment_number"), F("message_type"), F("redundant_channel")
+    seg = mk_in(size, "u16", ((0, 65534),))          # segmented <=> size != 0xFFFF
+
+    type_table(chk, prog, ev)
 
     # ---- redundant channel: the six defined codes (other codes are outside the property)
     got, fn = eval_or_blind(chk, ev, "VN", MH + "::rda_redundant_channel")
